@@ -139,6 +139,47 @@ def run(ck):
                         continue
                     for p in rets:
                         _check_driver(ck, inst, ssite, p, owner, init, ow, nch)
+    # ------------------------------------------------------------------ R4 together = alone
+    # "evaluating several observables together gives each the result it would get alone on the same chain states": a composite
+    # whose leaf carries the name of another registered observable (|SigmaZ| + SigmaX next to SigmaZ) included
+    ssite2 = prog.method("System", "statistics_from_samples").site()
+    inst = "System.statistics_from_samples/(SigmaZ, |SigmaZ| + SigmaX)"
+    with ck.guard("C13.R4", inst, ssite2):
+        def tha(it):
+            from ..ops import binop
+
+            s = make_state(it, "PositiveWaveFunction")
+            obs = api.observable_instances(it, prog)
+            comp = binop(it, "Add", obs["SigmaZ/absolute"], obs["SigmaX"], None)
+            recv = it.instantiate(prog.cls("System"), [obs["SigmaZ"], comp], {}, None)
+            smp = tens(it, "samples", ("B", "nv"))
+            r = call(it, recv, "statistics_from_samples", s, smp)
+            alone = {"first": call(it, obs["SigmaZ"], "apply", s, smp), "second": call(it, comp, "apply", s, smp)}
+            return recv, r, alone
+
+        for p in [q for q in paths_of(prog, tha, max_paths=40, sticky=True) if q.outcome == "return"][:6]:
+            recv, r, alone = p.value
+            obsd = p.interp.get_attr(recv, "observables", None)
+            if not (isinstance(r, VDict) and r.obj.items is not None and isinstance(obsd, VDict) and obsd.obj.items is not None and len(obsd.obj.items) == 2):
+                ck.undecided("C13.R4", inst, ssite2, "the result / the registered observables are not followed")
+                continue
+            for (nm_, _o), key_ in zip(obsd.obj.items.items(), ("first", "second")):
+                dct = r.obj.items.get(nm_)
+                got = num_term(dct.obj.items.get("mean")) if isinstance(dct, VDict) and dct.obj.items is not None and dct.obj.items.get("mean") is not None else None
+                at_ = alone[key_].term if isinstance(alone[key_], VTens) else None
+                want = T.app("mean", at_, "all") if at_ is not None else None
+                if got is None or want is None:
+                    ck.undecided("C13.R4", inst + ":%s observable" % key_, ssite2, "the reported mean or the stand-alone value is not followed")
+                elif got == want:
+                    ck.ok("C13.R4", inst + ":%s observable: reported mean = mean of its own apply()" % key_, ssite2)
+                else:
+                    # the stand-alone value takes an absolute value that the reported one lacks (or the reverse): values of another
+                    # observable were used
+                    ab_g = {a_ for a_ in got.all_atoms() if isinstance(a_, T.App) and a_.op == "abs"}
+                    ab_w = {a_ for a_ in want.all_atoms() if isinstance(a_, T.App) and a_.op == "abs"}
+                    ck.check(False if ab_g != ab_w else None, "C13.R4", inst + ":%s observable: reported mean = mean of its own apply()" % key_, ssite2,
+                             "evaluated together with SigmaZ, the observable %s reports the mean of %s, alone it is %s: the values of another observable (same name, other sign convention) are reused"
+                             % (nm_, str(got)[:120], str(want)[:120]), key="C13.R4|System|shared by name")
     # "any set of observables": two different observables may carry the same name (SigmaZ() and SigmaZ(absolute=True) do);
     # each must still be evaluated on every draw, and reported
     ssite = prog.method("System", "statistics").site()
@@ -232,7 +273,19 @@ def _check_driver(ck, inst, ssite, p, owner, init, ow, nch):
         ck.check(isinstance(i1, VConst) and i1.value is None, "C13.R2", inst + ":fresh start", ssite, "the first draw does not start from a fresh random state")
         n1 = num_term(first[5].get("num_samples"))
         want_nc = ns if nch == "zero" else T.app("min", *sorted([T.sym("num_chains"), ns], key=repr))
-        ck.check(n1 == want_nc, "C13.R1", inst + ":chain count normalised", ssite, "sample() is asked for %r chains; expected %r" % (n1, want_nc))
+        okn1 = n1 == want_nc
+        if not okn1 and nch != "zero" and n1 is not None:
+            # min(num_chains, num_samples) written as a case distinction: on a path that established num_chains <= num_samples it
+            # is num_chains, on one that established the opposite (or num_chains == 0) it is num_samples
+            nc_s = T.sym("num_chains")
+            cm_ = [c for c in p.conds if getattr(c[3] if len(c) > 3 else None, "term", None) is not None and {"num_chains", "num_samples"} & c[3].term.syms()]
+            if n1 == nc_s and ints.positive_on_path(ns - nc_s + 1, {}, cm_) is True:
+                okn1 = True
+            elif n1 == ns and (ints.positive_on_path(nc_s - ns + 1, {}, cm_) is True):
+                okn1 = True
+            elif n1 in (nc_s, ns) and cm_:
+                okn1 = None  # a case distinction on the two numbers the analyser cannot close
+        ck.check(okn1, "C13.R1", inst + ":chain count normalised", ssite, "sample() is asked for %r chains; expected %r" % (n1, want_nc))
     r1 = first[4]
     ck.check(isinstance(i2, VTens) and isinstance(r1, VTens) and i2.obj is r1.obj, "C13.R2", inst + ":chains continue", ssite,
              "later draws do not continue the chains returned by the previous draw")
@@ -242,7 +295,21 @@ def _check_driver(ck, inst, ssite, p, owner, init, ow, nch):
     sfs = [c for c in it.calls if c[0] == "ObservableBase.statistics_from_samples"]  # the public entry point itself (a private worker it delegates to is not another evaluation)
     per_draw = len(sfs) // 2 if sfs else 0
     nobs = 1 if owner == "ObservableBase" else 2
-    ck.check(per_draw == nobs and len(sfs) == 2 * nobs, "C13.R4", inst + ":each observable once per draw", ssite, "statistics_from_samples is called %d times for %d observables and 2 analysed draws" % (len(sfs), nobs))
+    # the evaluations themselves: apply() of each registered observable (however the driver reaches it)
+    regs = [recv] if owner == "ObservableBase" else [v_ for v_ in (it.get_attr(recv, "observables", None).obj.items or {}).values() if isinstance(v_, VObj)]
+    app_calls = [c for c in it.calls if c[0].endswith(".apply") and isinstance(c[5].get("self"), VObj) and any(c[5]["self"].inst is r_.inst for r_ in regs)]
+    if not sfs and app_calls:
+        per_obs = {id(r_.inst): [c for c in app_calls if c[5]["self"].inst is r_.inst] for r_ in regs}
+        ck.check(all(len(v_) == 2 for v_ in per_obs.values()), "C13.R4", inst + ":each observable once per draw", ssite,
+                 "the registered observables are evaluated %s times in the 2 analysed draws (expected once per draw each)" % sorted(len(v_) for v_ in per_obs.values()))
+        if all(len(v_) == 2 for v_ in per_obs.values()):
+            for j, v_ in enumerate(per_obs.values()):
+                for draw, c in zip((first, gen), v_):
+                    smp_t = c[7].get("samples") if len(c) > 7 else None
+                    ck.check(smp_t is not None and smp_t == draw[6], "C13.R4", inst + ":evaluated on this draw's chains #%d" % j, ssite,
+                             "an observable is not evaluated on the chain state returned by the current draw")
+    else:
+        ck.check(per_draw == nobs and len(sfs) == 2 * nobs, "C13.R4", inst + ":each observable once per draw", ssite, "statistics_from_samples is called %d times for %d observables and 2 analysed draws" % (len(sfs), nobs))
     if len(sfs) == 2 * nobs:
         for j, c in enumerate(sfs):
             draw = first if j < nobs else gen
@@ -261,7 +328,7 @@ def _check_driver(ck, inst, ssite, p, owner, init, ow, nch):
         ck.check(len(ups) == 2 * nobs, "C13.R4", inst + ":one merge per observable and draw", ssite, "_update_statistics is called %d times, expected %d" % (len(ups), 2 * nobs))
     # every name reports the statistics of the observable registered under it (and of no other)
     obsd = it.get_attr(recv, "observables", None) if owner == "System" else None
-    if isinstance(obsd, VDict) and obsd.obj.items is not None and isinstance(r, VDict) and r.obj.items is not None and sfs:
+    if isinstance(obsd, VDict) and obsd.obj.items is not None and isinstance(r, VDict) and r.obj.items is not None and (sfs or app_calls):
         own = {}
         for c in sfs:
             slf, res_ = c[5].get("self"), c[4]
@@ -270,6 +337,12 @@ def _check_driver(ck, inst, ssite, p, owner, init, ow, nch):
                     t_ = num_term(res_.obj.items.get(key_)) if res_.obj.items.get(key_) is not None else None
                     if t_ is not None:
                         own.setdefault(key_, {}).setdefault(t_, set()).add(id(slf.inst))
+        # (the chunk statistics of an observable are mean / unbiased variance of what its apply() returned, whoever computes them)
+        for c in app_calls:
+            rt_ = c[6] if len(c) > 6 else None
+            if rt_ is not None and hasattr(rt_, "terms"):
+                own.setdefault("mean", {}).setdefault(T.app("mean", rt_, "all"), set()).add(id(c[5]["self"].inst))
+                own.setdefault("variance", {}).setdefault(T.app("var_unbiased", rt_), set()).add(id(c[5]["self"].inst))
         for nm_, dct in r.obj.items.items():
             o_ = obsd.obj.items.get(nm_)
             if not isinstance(dct, VDict) or dct.obj.items is None or not isinstance(o_, VObj):
